@@ -37,6 +37,8 @@ type thread struct {
 	exited   chan struct{}
 	started  bool
 	idleWait bool
+	seen     []int64 // open-addressing set of objects touched since the thread last got the token
+	nseen    int
 }
 
 // Decision is one recorded choice of an execution.
@@ -230,6 +232,7 @@ func (e *exec) switchTo(next *thread) {
 	next.st = stRunnable
 	next.pred = nil
 	next.idleWait = false
+	next.seen, next.nseen = nil, 0
 	e.cur = next
 	next.g.wake()
 	t.g.wait()
@@ -272,9 +275,15 @@ func Point(kind string, obj int64) {
 		t.consec = 0
 		return
 	}
+	// starvation bound with a progress test: a thread that keeps touching objects it has not touched
+	// before (draining a queue node by node) is working, not spinning, and may keep the token; K
+	// consecutive points on already-seen objects while another thread is enabled are a spin
+	if t.novel(obj) {
+		t.consec = 0
+	}
 	t.consec++
 	if t.consec > FairnessK {
-		// starvation bound: rotate to the next enabled thread (cyclic order after t), free of charge
+		// rotate to the next enabled thread (cyclic order after t), free of charge
 		t.consec = 0
 		e.rot++
 		var next *thread
@@ -296,6 +305,40 @@ func Point(kind string, obj int64) {
 	}
 	t.consec = 0
 	e.switchTo(others[c-1])
+}
+
+// novel records obj in the thread's set of touched objects and reports whether it was new.
+//
+//go:norace
+func (t *thread) novel(obj int64) bool {
+	if obj == 0 {
+		return false
+	}
+	if t.seen == nil {
+		t.seen = make([]int64, 1024)
+	}
+	if t.nseen*2 >= len(t.seen) {
+		// grow and rehash
+		old := t.seen
+		t.seen = make([]int64, len(old)*2)
+		t.nseen = 0
+		for _, o := range old {
+			if o != 0 {
+				t.novel(o)
+			}
+		}
+	}
+	mask := len(t.seen) - 1
+	i := int((uint64(obj)*0x9E3779B97F4A7C15)>>40) & mask
+	for t.seen[i] != 0 {
+		if t.seen[i] == obj {
+			return false
+		}
+		i = (i + 1) & mask
+	}
+	t.seen[i] = obj
+	t.nseen++
+	return true
 }
 
 // yield passes the token on from a thread that cannot continue (blocked or exiting).
